@@ -142,12 +142,27 @@ def r1_sanitised_sinks(ctx, rep, R='C17.R1'):
                   'the substitution in %s does not remove every character XML 1.0 forbids (%s)'
                   % (q, v[1]), key='sanitiser:' + q, func='formatter.' + q)
     sinks = []
+    from sa.callgraph import local_assignments, sources_of
+    assigns = local_assignments(fi.node)
+
+    def is_element(e):
+        """the receiver is (an alias of) a local bound to ElementTree.Element / SubElement(...)"""
+        seen = set()
+        todo = [e]
+        while todo:
+            x = todo.pop()
+            if isinstance(x, ast.Call) and (dotted(x.func) or '').split('.')[-1] in ('Element', 'SubElement'):
+                return True
+            if isinstance(x, ast.Name) and x.id not in seen:
+                seen.add(x.id)
+                todo.extend(v for v in assigns.get(x.id, []) if isinstance(v, ast.AST))
+        return False
     for n in ast.walk(fi.node):
         if isinstance(n, ast.Call) and isinstance(n.func, ast.Attribute) and n.func.attr == 'set' \
-                and len(n.args) == 2 and (dotted(n.func.value) or '').endswith('Node'):
+                and len(n.args) == 2 and is_element(n.func.value):
             sinks.append((n, n.args[1], '%s.set(%s, ...)' % (dotted(n.func.value), norm(n.args[0]))))
         if isinstance(n, ast.Assign) and any(isinstance(t, ast.Attribute) and t.attr in ('text', 'tail')
-                                             for t in n.targets):
+                                             and is_element(t.value) for t in n.targets):
             sinks.append((n, n.value, norm(n.targets[0]) + ' = ...'))
         if isinstance(n, ast.Call) and (dotted(n.func) or '').endswith('SubElement') and n.keywords:
             for k in n.keywords:
@@ -157,7 +172,12 @@ def r1_sanitised_sinks(ctx, rep, R='C17.R1'):
         if _clean(val, fi):
             rep.ok(R, label + ' (number / host / time stamp / constant)')
             continue
-        if 'propert' in label and isinstance(val, ast.Name):
+        from_param = isinstance(val, ast.Name) and any(
+            isinstance(lp_, ast.For) and val.id in {x.id for x in ast.walk(lp_.target)
+                                                    if isinstance(x, ast.Name)} and
+            any(isinstance(x, ast.Name) and x.id in params(fi) for x in ast.walk(lp_.iter))
+            for lp_ in ast.walk(fi.node))
+        if from_param:
             rep.ok(R, label + ' (caller-supplied report properties, not test data)')
             continue
         nt += 1
@@ -260,7 +280,9 @@ def r3_counters(ctx, rep, R='C17.R3'):
                 isinstance(n.value, ast.Constant) and n.value.value == 1]
         good = len(incs) == 1 and kind in ps
         if good:
-            lits = path_literals(incs[0], rec.node)
+            from .common import record_field_expander
+            expand = record_field_expander(ctx, rec)
+            lits = [(expand(e), pos) for e, pos in path_literals(incs[0], rec.node)]
             good = [(norm(e), pos) for e, pos in lits] in (
                 [('%s is None' % kind, False)], [(kind, True)])
         rep.check(good, R, '_record: %s += 1 iff %s is given' % (counter, kind),
